@@ -318,6 +318,9 @@ func deextract(repo string, cfg BuildConfig, ref symTable, overlay map[string][]
 				ds, de := fset.Position(site.decl.Pos()).Offset, fset.Position(site.decl.End()).Offset
 				us, ue := fset.Position(site.use.Pos()).Offset, fset.Position(site.use.End()).Offset
 				ls, le := fset.Position(site.lit.Pos()).Offset, fset.Position(site.lit.End()).Offset
+				if os.Getenv("VERIF_DEBUG_NORMALIZE") != "" {
+					fmt.Fprintf(os.Stderr, "closure variable %s:%d ds=%d de=%d us=%d ue=%d ls=%d le=%d overlap=%v\n", fname, fset.Position(site.decl.Pos()).Line, ds, de, us, ue, ls, le, overlaps(fname, ds, ue))
+				}
 				if ds < 0 || de > len(content) || us < de || ue > len(content) || ls < ds || le > de || overlaps(fname, ds, ue) {
 					continue
 				}
@@ -1248,9 +1251,18 @@ func findClosureVars(pkgs map[string]*packages.Package) []closureVarSite {
 							}
 						}
 					case *ast.DeclStmt:
-						if gd, ok := x.Decl.(*ast.GenDecl); ok && gd.Tok == token.VAR && len(gd.Specs) == 1 {
-							if vs, ok := gd.Specs[0].(*ast.ValueSpec); ok && len(vs.Names) == 1 && len(vs.Values) == 1 {
-								consider(st, vs.Names[0], vs.Values[0])
+						if gd, ok := x.Decl.(*ast.GenDecl); ok && gd.Tok == token.VAR {
+							for _, sp := range gd.Specs {
+								vs, ok := sp.(*ast.ValueSpec)
+								if !ok || len(vs.Names) != 1 || len(vs.Values) != 1 {
+									continue
+								}
+								if len(gd.Specs) == 1 {
+									consider(st, vs.Names[0], vs.Values[0])
+								} else if gd.Lparen.IsValid() {
+									// one line of a parenthesised group: only that line goes
+									consider(&ast.DeclStmt{Decl: &ast.GenDecl{TokPos: vs.Pos(), Tok: token.VAR, Specs: []ast.Spec{vs}, Rparen: vs.End() - 1}}, vs.Names[0], vs.Values[0])
+								}
 							}
 						}
 					}
